@@ -2,7 +2,10 @@
 Same record as round 1 (tools/assemble_seeded.py): the seeding agent's description, my confirmation
 (tools/confirm_seeds.sh, OUT=/var/tmp/seeds2/confirm_<group>.tsv), detection (tools/try_seed_wt.sh -> detect.log)."""
 import glob, json, os, re, shutil
-SRC = "/var/tmp/seeds2"
+import sys
+SRC = sys.argv[1] if len(sys.argv) > 1 else "/var/tmp/seeds2"
+SUFFIX = sys.argv[2] if len(sys.argv) > 2 else "_3"
+ROUND = int(sys.argv[3]) if len(sys.argv) > 3 else 2
 DST = "/verif/seeded"
 confirm = {}
 for f in glob.glob(f"{SRC}/confirm_*.tsv"):
@@ -16,7 +19,7 @@ for line in open(f"{SRC}/detect.log"):
     m = re.match(r"(\S+) (\S+) violations=(\d+) :: (.*)", line)
     if m:
         detect[m.group(1)] = {"check": m.group(2), "violations_reported": int(m.group(3)), "first_violation": m.group(4).strip()}
-first_miss = {"C02_1", "C05_1", "C09_1", "C10_1", "C18_1"}
+first_miss = set(sys.argv[4].split(",")) if len(sys.argv) > 4 else {"C02_1", "C05_1", "C09_1", "C10_1", "C18_1"}
 n = 0
 for src in sorted(glob.glob(f"{SRC}/C??_1")):
     sid = os.path.basename(src)
@@ -24,7 +27,7 @@ for src in sorted(glob.glob(f"{SRC}/C??_1")):
     if not c or not (c["demo_exit_unmodified"] == 0 and c["demo_exit_with_patch"] != 0
                      and c["suite_with_patch"].startswith("11 failed, 520 passed")):
         print("REJECTED/unconfirmed:", sid, c); continue
-    new_id = sid.split("_")[0] + "_3"
+    new_id = sid.split("_")[0] + SUFFIX
     out = os.path.join(DST, new_id)
     os.makedirs(out, exist_ok=True)
     shutil.copy(os.path.join(src, "patch.diff"), out)
@@ -34,11 +37,11 @@ for src in sorted(glob.glob(f"{SRC}/C??_1")):
     except Exception:
         meta = {}
     meta_out = {
-        "id": new_id, "round": 2, "property": meta.get("property") or sid.split("_")[0],
+        "id": new_id, "round": ROUND, "property": meta.get("property") or sid.split("_")[0],
         "clause_broken": meta.get("clause_broken", meta.get("description", "")),
         "what_it_needs_to_manifest": meta.get("what_it_needs_to_manifest", ""),
         "files_changed": meta.get("files_changed", []),
-        "origin": "written by an independent sub-agent that saw only the property text and a scratch worktree of /repo (round 2, /repo HEAD 1ba1af1)",
+        "origin": "written by an independent sub-agent that saw only the property text and a scratch worktree of /repo (round %d, /repo HEAD 1ba1af1)" % ROUND + "",
         "my_confirmation": {**c, "how": "tools/confirm_seeds.sh: scratch worktree of /repo HEAD; demo on the clean tree, git apply patch.diff, "
                                        "demo again, full pytest suite (BASELINE command, single-threaded BLAS)"},
         "detection": {**detect.get(sid, {}), "how": "tools/try_seed_wt.sh (patch applied in a scratch worktree, quick check run against it)",
